@@ -23,8 +23,10 @@ func (k msgServer) Cancel(goCtx context.Context, msg *types.MsgCancel) (*types.M
 	isCreator := false
 	if order.Creator == msg.Creator {
 		isCreator = true
-	} else {
-		node, found := k.node.GetNode(ctx, msg.Provider)
+	} else if msg.Provider == order.Provider {
+		// the order's own gateway may cancel an order placed by one of its registered
+		// addresses; a node named by the sender proves nothing about the order
+		node, found := k.node.GetNode(ctx, order.Provider)
 		if found {
 			for _, address := range node.TxAddresses {
 				if order.Creator == address {
